@@ -218,6 +218,8 @@ def apply_observe(sess, op):
     sess.w.sweeps.reset()
     r = sess._guard(lambda: sut.solve(**kw))
     sess.stats["observe"] += 1
+    if "C03" not in E:
+        sess.stats["sweeps"] += sess.w.sweeps.fwd
     table = None
     if r[0] != "ok":
         sess.stats["observe_solve_raised:" + r[1]] += 1
@@ -226,6 +228,8 @@ def apply_observe(sess, op):
                 sess.fail("C16", "solve-succeeds", "solve() raised %s(%s) after a successful edit history" % (r[1], r[2]))
             if "C03" in E:
                 sess.fail("C03", "raises-only-documented", "solve() raised %s(%s)" % (r[1], r[2]))
+            if "C05" in E and m.mux() is not None:
+                sess.fail("C05", "mux-is-reported", "solve() raised %s(%s) on a system with a PMux instead of reporting it" % (r[1], r[2]))
         if "C03" in E:
             sess.stats["c03_outcome:" + r[1]] += 1
             defaults = not any(k in kw for k in ("vtol", "itol", "maxiter"))
